@@ -21,10 +21,25 @@ PROP = 'C18'
 LEVEL = 'proof'
 
 
+def _native(call):
+    import os
+    here = os.path.dirname(os.path.dirname(os.path.abspath(__file__)))
+    return "import sys; sys.path.insert(0, %r)\nfrom native import c18\nc18.%s\n" % (here, call)
+
+
 class InProc:
-    """The C18 obligations are ground or tiny linear-integer queries; they are decided by z3 in the checking process
-    (sub-millisecond) instead of one forked solver each.  Only `unsat` (goal) / `sat` (path cover) is accepted here;
-    anything else -- in particular every refutation -- goes through the usual forked discharge, which produces the model."""
+    """The C18 obligations are ground or tiny quantifier-free linear-integer queries; they are decided by z3 in the checking
+    process (sub-millisecond each) instead of one forked solver each.  `unknown` falls through to the usual forked discharge.
+    Native replays are limited to the first refuted obligation of each clause (the others are reported from the ledger)."""
+    _replayed = None
+
+    def replay_once(self, ob):
+        if self._replayed is None:
+            self._replayed = set()
+        if ob.clause in self._replayed:
+            return False
+        self._replayed.add(ob.clause)
+        return True
 
     def decide(self):
         from pyvc.contract import generate
@@ -52,8 +67,16 @@ def _decide_in_process(ob):
             ob.status, ob.decided = 'vacuous', True
     else:
         s.add(z3.Not(ob.goal))
-        if s.check() == z3.unsat:
+        r = s.check()
+        if r == z3.unsat:
             ob.status, ob.decided = 'proved', True
+        elif r == z3.sat:
+            m = s.model()
+            ob.model = {}
+            for d in m.decls():
+                if d.arity() == 0:
+                    ob.model[d.name()] = str(m[d])
+            ob.status, ob.decided = 'refuted', True
     if getattr(ob, 'decided', False):
         ob.backend, ob.seconds, ob.output = 'z3-%s (in-process)' % z3.get_version_string(), time.time() - t0, ''
 
@@ -237,6 +260,11 @@ class Wrapper(InProc, Contract):
                      'pickle': Pickle(), 'log': Log(), 'disable': lambda ctx: Disable(), '_lock_file': lambda ctx, fobj: S.events.append('lock'),
                      'sorted': _sorted_kwargs}
         return S
+
+    def replay(self, ob):
+        if not self.replay_once(ob):
+            return None
+        return _native('run_function_twice(%r, %r)' % (self.scenario if self.scenario in INITIAL else None, ob.clause))
 
     def ensures(self, cx, S, result):
         sc = self.scenario
@@ -678,6 +706,12 @@ class RecursionIter(InProc, Contract):
                      '_lock_file': lambda ctx, f: S.events.append(('lock', f.index))}
         cx.format_hook = lambda template, a, k: FormatV(template, a)
         return S
+
+    def replay(self, ob):
+        import json
+        if not self.replay_once(ob):
+            return None
+        return _native('run_recursion(%s, %r)' % (json.dumps({k: str(v) for k, v in (ob.model or {}).items() if not k.startswith('k!')}), ob.clause))
 
     @staticmethod
     def history_ok(S, snap, index):
